@@ -584,7 +584,7 @@ class RF24:
             self.payload_length = length
         else:
             self._pl_len[pipe_number] = max(1, min(32, length))
-            self._reg_write(RX_PL_LENG + pipe_number, length)
+            self._reg_write(RX_PL_LENG + pipe_number, self._pl_len[pipe_number])
 
     def get_payload_length(self, pipe_number: int = 0) -> int:
         """Returns an `int` describing the specified data pipe's static
